@@ -102,6 +102,24 @@ pub proof fn lemma_in_b_all(b: Seq<(usize, String)>)
 //@FN expand_args_for_single_token
 //@FN expand_args_in_tokens
 
+// ---- the pass over one script line (a command list) ----
+pub struct LineInfo { pub tokens: Tokens, pub is_complete: bool }
+// parser_line::{line_to_cmds, parse_line, tokens_to_line}: contracts in U-TOK; here uninterpreted functions of their input
+pub uninterp spec fn spec_cmds(line: Seq<char>) -> Seq<Seq<char>>;
+#[verifier::external_body]
+pub fn line_to_cmds(line: &str) -> (r: Vec<String>) ensures strs(r@) == spec_cmds(line@) { unimplemented!() }
+pub uninterp spec fn spec_tokens(cmd: Seq<char>) -> Seq<(Seq<char>, Seq<char>)>;
+#[verifier::external_body]
+pub fn parse_line(line: &str) -> (r: LineInfo) ensures toks_view(r.tokens@) == spec_tokens(line@) { unimplemented!() }
+pub uninterp spec fn spec_line(t: Seq<(Seq<char>, Seq<char>)>) -> Seq<char>;
+#[verifier::external_body]
+pub fn tokens_to_line(tokens: &Tokens) -> (r: String) ensures r@ == spec_line(toks_view(tokens@)) { unimplemented!() }
+#[verifier::external_body]
+pub fn vx_join_sp(v: &Vec<String>) -> (r: String) ensures r@ == spec_join_sp(strs(v@)) { v.join(" ") }
+pub open spec fn is_list_op(s: Seq<char>) -> bool { s == ";"@ || s == "&&"@ || s == "||"@ }
+
+//@FN expand_args
+
 // ---- function calls ----
 impl Shell {
     #[verifier::external_body]
@@ -218,7 +236,27 @@ try_run_func = Fn('src/core.rs', 'try_run_func', ret='r',
            'loop-0-exit': 'assert(command.tokens@.take(command.tokens@.len() as int) =~= command.tokens@);'},
 )
 
-UNIT = Unit('U-ARGS', TEMPLATE, fns=[one, in_tokens, try_run_func, Fn('src/types.rs', 'new', impl='CommandResult', ret='r', ensures=[('C15.cr.new', 'r.status == 0')])],
+# expand_args: every command of the list is tokenized, rewritten and serialized on its own; the list operators stay where they are
+expand_args = Fn(SC, 'expand_args', ret='r',
+    pre_rewrites=[Rw('parsers::parser_line::line_to_cmds(', 'line_to_cmds(', rule='R0'), Rw('parsers::parser_line::parse_line(', 'parse_line(', rule='R0'),
+                  Rw('parsers::parser_line::tokens_to_line(', 'tokens_to_line(', rule='R0'),
+                  Rw('parts.join(" ")', 'vx_join_sp(&parts)', rule='R12', why='Vec<String>::join(" ") through a shim (text uninterpreted)')],
+    let_types={'parts': 'Vec<String>'},
+    loop_kinds={0: 'value'},
+    requires=[('C05.pre.args_nonempty3', 'args@.len() >= 1')],
+    ensures=[('C15+C03.expand_args.list_operators_stay_and_each_command_is_handled_alone',
+              'exists|ps: Seq<Seq<char>>| r@ == spec_join_sp(ps) && ps.len() == spec_cmds(line@).len() && forall|i: int| 0 <= i < ps.len() ==> '
+              '(is_list_op(spec_cmds(line@)[i]) ==> #[trigger] ps[i] == spec_cmds(line@)[i])')],
+    loops={0: Loop(invariant=[
+        ('C15+C03.inv.expand_args.parts', 'args@.len() >= 1 && parts@.len() == __I && __V@.len() == spec_cmds(line@).len() && strs(__V@) == spec_cmds(line@) && forall|i: int| 0 <= i < __I ==> '
+                                         '(is_list_op(spec_cmds(line@)[i]) ==> (#[trigger] parts@[i])@ == spec_cmds(line@)[i])'),
+    ])},
+    hints={'loop-0-body-entry': 'reveal_strlit(";"); reveal_strlit("&&"); reveal_strlit("||");',
+           'loop-0-exit': 'assert(strs(parts@).len() == spec_cmds(line@).len()); '
+                          'assert forall|i: int| 0 <= i < strs(parts@).len() && is_list_op(spec_cmds(line@)[i]) implies #[trigger] strs(parts@)[i] == spec_cmds(line@)[i] by { assert(strs(parts@)[i] == parts@[i]@); }'},
+)
+
+UNIT = Unit('U-ARGS', TEMPLATE, fns=[one, in_tokens, expand_args, try_run_func, Fn('src/types.rs', 'new', impl='CommandResult', ret='r', ensures=[('C15.cr.new', 'r.status == 0')])],
             types=[TypeItem('src/types.rs', 'struct', 'Command'), TypeItem('src/types.rs', 'struct', 'CommandLine'), TypeItem('src/types.rs', 'struct', 'CommandResult')],
             props=('C15', 'C05'))
 TRUSTED = common.TRUSTED_STR + common.TRUSTED_TOKEN + [
